@@ -946,6 +946,13 @@ func renderRaw(txt string, err error, nExprs int, unread int) string {
 	return fmt.Sprintf("ok n=%d e=[%s] mt=%s tt=%s left=%d", nExprs, strings.Join(es, ","), mt, tt, left)
 }
 
+func okOrClass(err error) string {
+	if err == nil {
+		return "ok"
+	}
+	return privErrClass(err)
+}
+
 func privErrClass(err error) string {
 	m := err.Error()
 	if strings.Contains(m, "is not a type name") {
@@ -966,6 +973,57 @@ func (pr *privRun) reconstruct(pc *pcase, ad *classad.ClassAd, wire []byte, viol
 	pr.c.Ran("privacy-receiver-reconstructions", 1)
 	w.bc.Feed(wire)
 	got, gerr := message.NewMessageFromStream(w.bs).GetClassAd(bg)
+	unread := len(w.bc.In)
+	// EVERY receiver reassembles what an honest sender produced, in every stream state (on a keyed,
+	// not encrypting stream the secret travels in its own protected frame right after a cleartext frame
+	// that ends with the marker): the raw/text receiver, the capped parsing receiver, and the skipping
+	// reader, which must consume exactly the bytes the others consume. Implementation observables only.
+	for _, rcv := range []string{"GetClassAdRaw", "GetClassAdWithMaxSize", "SkipClassAdRaw"} {
+		pr.c.Planned("privacy-receiver-reconstructions", 1)
+		w2, err := newPWorld(pc.keyed, pc.encrypt, nil)
+		if err != nil {
+			continue
+		}
+		pr.c.Ran("privacy-receiver-reconstructions", 1)
+		w2.bc.Feed(wire)
+		m2 := message.NewMessageFromStream(w2.bs)
+		var rerr error
+		var txt string
+		var ad2 *classad.ClassAd
+		switch rcv {
+		case "GetClassAdRaw":
+			txt, rerr = m2.GetClassAdRaw(bg)
+		case "GetClassAdWithMaxSize":
+			ad2, rerr = m2.GetClassAdWithMaxSize(bg, 2*len(wire)+4096)
+		case "SkipClassAdRaw":
+			rerr = m2.SkipClassAdRaw(bg)
+		}
+		pr.c.Count("receiver:" + rcv + ":" + stateNames[pc.state()])
+		if (rerr == nil) != (gerr == nil) {
+			viol("C09:receivers-disagree:"+rcv+":"+stateNames[pc.state()], "one receiver reassembles the ad an honest sender produced and another fails on the same bytes",
+				fmt.Sprintf("GetClassAd: %s", okOrClass(gerr)), fmt.Sprintf("%s: %s", rcv, okOrClass(rerr)))
+			continue
+		}
+		if rerr != nil {
+			continue // both fail: reported below as receiver-failed
+		}
+		if u := len(w2.bc.In); u != unread {
+			viol("C09:receivers-consume-different-bytes:"+rcv+":"+stateNames[pc.state()], "two receivers of the same ad leave different numbers of bytes unread on the connection", fmt.Sprint(unread), fmt.Sprint(u))
+		}
+		for _, a := range pc.attrs {
+			if !pc.expectSent(a) || !specIsPriv(a.name) || a.canary == "" {
+				continue
+			}
+			switch {
+			case rcv == "GetClassAdRaw" && !strings.Contains(txt, a.canary):
+				viol("C09:receiver-lost-attr:"+rcv+":"+stateNames[pc.state()], "a private attribute that was sent is missing from what the raw receiver reassembled", fmt.Sprintf("value of %q present", a.name), "absent")
+			case rcv == "GetClassAdWithMaxSize":
+				if ge, ok := ad2.Lookup(a.name); !ok || !strings.Contains(ge.String(), a.canary) {
+					viol("C09:receiver-lost-attr:"+rcv+":"+stateNames[pc.state()], "a private attribute that was sent is missing from what the capped receiver reassembled", fmt.Sprintf("value of %q present", a.name), fmt.Sprintf("present=%v", ok))
+				}
+			}
+		}
+	}
 	if gerr != nil {
 		viol("C09:receiver-failed:"+stateNames[pc.state()], "the peer could not reassemble the ad", "GetClassAd succeeds", gerr.Error())
 		return
